@@ -206,6 +206,14 @@ func features(d string) []feature {
 		idx("ops", Idx{Name: "i38", Parts: []Part{{Col: "name", Ops: "text_pattern_ops"}}})
 		idx("ops-custom", Idx{Name: "i39", Parts: []Part{{Col: "name", Ops: "my_ops"}}})
 		idx("ops-expr", Idx{Name: "i40", Parts: []Part{{Expr: "(lower((name)::text))", Ops: "varchar_pattern_ops", Desc: true}}})
+		// operator classes with 1, 2 and 3 parameters (BRIN bloom / minmax-multi, GiST siglen), on columns and expressions.
+		idx("ops-params-1", Idx{Name: "i50", Type: "BRIN", Parts: []Part{{Col: "qty", Ops: "int4_minmax_multi_ops", OpsParams: [][2]string{{"values_per_range", "8"}}}}})
+		idx("ops-params-2", Idx{Name: "i51", Type: "BRIN", Parts: []Part{{Col: "qty", Ops: "int4_bloom_ops", OpsParams: [][2]string{{"n_distinct_per_range", "100"}, {"false_positive_rate", "0.05"}}}}})
+		idx("ops-params-3", Idx{Name: "i52", Type: "BRIN", Parts: []Part{{Col: "qty", Ops: "my_ops", OpsParams: [][2]string{{"a", "1"}, {"b", "-2.5"}, {"c", "x"}}}}})
+		idx("ops-params-2-two-parts", Idx{Name: "i53", Type: "BRIN", Parts: []Part{
+			{Col: "qty", Ops: "int4_bloom_ops", OpsParams: [][2]string{{"n_distinct_per_range", "100"}, {"false_positive_rate", "0.05"}}},
+			{Col: "pgrp", Desc: true, Ops: "int4_bloom_ops", OpsParams: [][2]string{{"false_positive_rate", "0.01"}, {"n_distinct_per_range", "-0.5"}}}}})
+		idx("ops-params-2-expr", Idx{Name: "i54", Type: "GIST", Parts: []Part{{Expr: "(to_tsvector('simple'::regconfig, (name)::text))", Ops: "tsvector_ops", OpsParams: [][2]string{{"siglen", "256"}, {"x", "y"}}}}})
 		idx("nulls-not-distinct", Idx{Name: "i41", Unique: true, NullsDistinct: bp(false), Parts: []Part{{Col: "pgrp"}}})
 		idx("nulls-distinct", Idx{Name: "i42", Unique: true, NullsDistinct: bp(true), Parts: []Part{{Col: "pgrp"}}})
 		idx("brin-pages", Idx{Name: "i43", Type: "BRIN", PagesPerRange: 64, Parts: []Part{{Col: "created"}}})
